@@ -250,7 +250,9 @@ def param_variants(name, rule):
 
 def hook_cells(kind):
     cells = []
-    creds = ['none', 'wrong-user', 'wrong-pw', 'right']
+    # (re-split: the right characters, the login/password boundary moved)
+    creds = ['none', 'wrong-user', 'wrong-pw', 'right', 'resplit',
+             'resplit-empty-login']
     # a repository identity that differs, and one that is not there at all
     idents = ['match', 'other-owner', 'other-slug', 'absent', 'null',
               'empty', 'id-missing', 'id-empty', 'id-null']
@@ -515,7 +517,10 @@ class Matrix:
         headers = {'Content-Type': 'application/json'}
         cred = {'none': None, 'wrong-user': ('mallory', HOOK_PW),
                 'wrong-pw': (HOOK_USER, 'nope'),
-                'right': (HOOK_USER, HOOK_PW)}[cell['cred']]
+                'right': (HOOK_USER, HOOK_PW),
+                'resplit': (HOOK_USER + HOOK_PW[:2], HOOK_PW[2:]),
+                'resplit-empty-login': ('', HOOK_USER + HOOK_PW)}[
+                    cell['cred']]
         if cred:
             headers['Authorization'] = 'Basic ' + base64.b64encode(
                 ('%s:%s' % cred).encode()).decode()
